@@ -1662,7 +1662,8 @@ class BoundaryArc(Geodesic):
         # the arc
         dets = utils.det(point_data).astype('float64')
 
-        point_data[np.abs(dets) < ERROR_THRESHOLD, 2] = orientation_pt_2
+        degenerate = np.abs(dets) < ERROR_THRESHOLD
+        point_data[degenerate, 2] = orientation_pt_2[degenerate, 0]
 
         signs = utils.det(point_data).astype('float64')
         point_data[dets < 0, 2] *= -1
